@@ -1,6 +1,8 @@
 // ---- statements ------------------------------------------------------------------------------------
 
 struct Scan {
+    /// a `break` of the loop being scanned (not of a loop nested in it)
+    has_break: bool,
     has_exit: bool,
     assigned: Vec<Expr>,
     /// receivers of `<place>.push(x)`: rewrites of the list when the translator models its elements
@@ -12,6 +14,14 @@ impl<'ast> syn::visit::Visit<'ast> for Scan {
     fn visit_expr(&mut self, e: &'ast Expr) {
         match e {
             Expr::Return(_) | Expr::Try(_) => self.has_exit = true,
+            Expr::Break(_) => self.has_break = true,
+            Expr::ForLoop(_) | Expr::Loop(_) | Expr::While(_) => {
+                // a `break` in there leaves that loop, not this one
+                let saved = self.has_break;
+                syn::visit::visit_expr(self, e);
+                self.has_break = saved;
+                return;
+            }
             Expr::Assign(a) => self.assigned.push((*a.left).clone()),
             Expr::Binary(b) => match b.op {
                 BinOp::AddAssign(_) | BinOp::SubAssign(_) | BinOp::MulAssign(_) | BinOp::BitXorAssign(_) | BinOp::BitAndAssign(_)
@@ -22,8 +32,15 @@ impl<'ast> syn::visit::Visit<'ast> for Scan {
             },
             Expr::Closure(_) => return,
             // `self.<list>.push(x)` rewrites the list
-            Expr::MethodCall(m) if m.method == "push" && m.args.len() == 1 && matches!(&*m.receiver, Expr::Field(_)) => {
-                self.pushed.push((*m.receiver).clone());
+            Expr::MethodCall(m)
+                if ((m.method == "push" && m.args.len() == 1) || (m.method == "pop" && m.args.is_empty()))
+                    && (matches!(&*m.receiver, Expr::Field(_)) || matches!(&*m.receiver, Expr::Path(p) if p.path.segments.len() == 1 && p.path.segments[0].ident != "self")) =>
+            {
+                if matches!(&*m.receiver, Expr::Path(_)) {
+                    self.assigned.push((*m.receiver).clone());
+                } else {
+                    self.pushed.push((*m.receiver).clone());
+                }
                 self.calls = true
             }
             Expr::MethodCall(_) | Expr::Call(_) => self.calls = true,
@@ -34,13 +51,13 @@ impl<'ast> syn::visit::Visit<'ast> for Scan {
 }
 
 fn scan_block(b: &syn::Block) -> Scan {
-    let mut s = Scan { has_exit: false, assigned: vec![], pushed: vec![], calls: false };
+    let mut s = Scan { has_break: false, has_exit: false, assigned: vec![], pushed: vec![], calls: false };
     syn::visit::Visit::visit_block(&mut s, b);
     s
 }
 
 fn scan_expr(e: &Expr) -> Scan {
-    let mut s = Scan { has_exit: false, assigned: vec![], pushed: vec![], calls: false };
+    let mut s = Scan { has_break: false, has_exit: false, assigned: vec![], pushed: vec![], calls: false };
     syn::visit::Visit::visit_expr(&mut s, e);
     s
 }
@@ -350,7 +367,7 @@ impl<'a> Cx<'a> {
         }
         let eff = self.effect(&name, texts);
         if mutates_self {
-            self.invalidate_places();
+            self.invalidate_places_after(&name);
         }
         let body = self.block(rest, k)?;
         Ok(wrap_pre(&pre, format!("({}{})", eff, body)))
@@ -367,7 +384,9 @@ impl<'a> Cx<'a> {
         let c = self.cond(&i.cond)?;
         let then_scan = scan_block(&i.then_branch);
         let else_scan = i.else_branch.as_ref().map(|(_, e)| scan_expr(e));
-        let exits = then_scan.has_exit || else_scan.as_ref().map(|s| s.has_exit).unwrap_or(false);
+        let exits = then_scan.has_exit
+            || else_scan.as_ref().map(|s| s.has_exit).unwrap_or(false)
+            || (!self.for_konts.is_empty() && (then_scan.has_break || else_scan.as_ref().map(|s| s.has_break).unwrap_or(false)));
         let value_tail = is_tail && rest.is_empty() && i.else_branch.is_some() && matches!(k, Kont::Return);
         if exits || value_tail {
             // inline the rest of the enclosing block into both branches
@@ -403,7 +422,7 @@ impl<'a> Cx<'a> {
             return Ok(wrap_pre(&c.pre, format!("(if {} then\n  {}\n  else\n  {})", c.term, t, f)));
         }
         // no exits: the branches meet again; the assigned variables are handed over as a tuple
-        let mut all = Scan { has_exit: false, assigned: then_scan.assigned.clone(), pushed: then_scan.pushed.clone(), calls: then_scan.calls };
+        let mut all = Scan { has_break: false, has_exit: false, assigned: then_scan.assigned.clone(), pushed: then_scan.pushed.clone(), calls: then_scan.calls };
         if let Some(s) = &else_scan {
             all.assigned.extend(s.assigned.clone());
             all.pushed.extend(s.pushed.clone());
@@ -649,6 +668,34 @@ impl<'a> Cx<'a> {
                     return Ok(wrap_pre(&tx.pre, format!("(match {} with\n  | ({}) =>\n  {})", tx.term, names.join(", "), body)));
                 }
                 let (name, ann) = self.simple_pat(&l.pat)?;
+                // `let mut v = Vec::new();`: the element type is that of the first `v.push(e as T)` that follows
+                if compact(&toks(&init)) == "Vec::new()" && ann.is_none() {
+                    struct FindPush<'b> {
+                        name: &'b str,
+                        found: Option<syn::Type>,
+                    }
+                    impl<'ast, 'b> syn::visit::Visit<'ast> for FindPush<'b> {
+                        fn visit_expr_method_call(&mut self, m: &'ast syn::ExprMethodCall) {
+                            if self.found.is_none() && m.method == "push" && m.args.len() == 1 && toks(&*m.receiver) == self.name {
+                                if let Expr::Cast(c) = &m.args[0] {
+                                    self.found = Some((*c.ty).clone());
+                                }
+                            }
+                            syn::visit::visit_expr_method_call(self, m);
+                        }
+                    }
+                    let mut fp = FindPush { name: &name, found: None };
+                    for st in rest {
+                        syn::visit::Visit::visit_stmt(&mut fp, st);
+                    }
+                    let et = match fp.found {
+                        Some(t) => self.syn_ty(&t),
+                        None => return self.un(format!("`let {} = Vec::new()`: element type not evident from a later `push(e as T)`", name)),
+                    };
+                    let lean = self.declare(&name, LT::List(Box::new(et)));
+                    let body = self.block(rest, k)?;
+                    return Ok(format!("(let {} := [];\n  {})", lean, body));
+                }
                 if let Some(tyname) = self.havoc.get(&name).cloned() {
                     let lt = match int_ty(&tyname) {
                         Some(t) => t,
@@ -768,6 +815,53 @@ impl<'a> Cx<'a> {
                         let tx = self.expr(e, None)?;
                         let body = self.block(rest, k)?;
                         Ok(wrap_pre(&tx.pre, body))
+                    }
+                    Expr::Break(b) if b.expr.is_none() && b.label.is_none() && !self.for_konts.is_empty() => {
+                        let (kont, brk) = self.for_konts.last().cloned().unwrap();
+                        let lean = match self.lookup(&brk) {
+                            Some(v) => v.lean,
+                            None => return self.un("internal: break flag not in scope"),
+                        };
+                        let out = self.finish(&kont, None)?;
+                        Ok(format!("(let {} := true;\n  {})", lean, out))
+                    }
+                    // `v.push(x);` on a local vector
+                    Expr::MethodCall(mc)
+                        if mc.method == "push"
+                            && mc.args.len() == 1
+                            && matches!(&*mc.receiver, Expr::Path(p) if p.path.segments.len() == 1 && matches!(self.lookup(&p.path.segments[0].ident.to_string()), Some(Var { ty: LT::List(_), .. }))) =>
+                    {
+                        let n = match &*mc.receiver {
+                            Expr::Path(p) => p.path.segments[0].ident.to_string(),
+                            _ => unreachable!(),
+                        };
+                        let v = self.lookup(&n).unwrap();
+                        let et = match &v.ty {
+                            LT::List(t) => (**t).clone(),
+                            _ => unreachable!(),
+                        };
+                        let x = self.expr(&mc.args[0], Some(&et))?;
+                        if x.ty != et {
+                            return self.un(format!("push onto `{}`: modelled types differ", n));
+                        }
+                        let body = self.block(rest, k)?;
+                        Ok(wrap_pre(&x.pre, format!("(let {} := {} ++ [{}];\n  {})", v.lean, v.lean, x.term, body)))
+                    }
+                    // `self.<list>.pop();` for its effect
+                    Expr::MethodCall(mc)
+                        if mc.method == "pop"
+                            && mc.args.is_empty()
+                            && semi.is_some()
+                            && matches!(&*mc.receiver, Expr::Field(_))
+                            && self.path_of(&mc.receiver).map(|p| self.written.contains(&p)).unwrap_or(false) =>
+                    {
+                        let p = self.path_of(&mc.receiver).unwrap();
+                        let cur = self.place(&p)?;
+                        if !matches!(cur.ty, LT::List(_)) {
+                            return self.un(format!("pop from `{}` of type {:?}", p, cur.ty));
+                        }
+                        let body = self.block(rest, k)?;
+                        Ok(format!("(let {} := ({}).dropLast;\n  {})", cur.lean, cur.lean, body))
                     }
                     Expr::MethodCall(mc)
                         if mc.method == "push"
@@ -1086,7 +1180,16 @@ impl<'a> Cx<'a> {
             t => return self.un(format!("`for` over {:?} not modelled", t)),
         };
         let scan = scan_block(&f.body);
-        let vars = self.assigned_outer(&scan, true)?;
+        let mut vars = self.assigned_outer(&scan, true)?;
+        // a `break` is a flag carried with the state: once it is set the remaining passes do nothing
+        let brk = if scan.has_break {
+            let b = self.fresh("brk");
+            self.declare(&b, LT::Bool);
+            vars.push((b.clone(), false));
+            Some(b)
+        } else {
+            None
+        };
         // make sure every carried place exists before the loop
         let init = self.join_names(&vars)?;
         let snapshot = self.snapshot();
@@ -1116,12 +1219,28 @@ impl<'a> Cx<'a> {
         };
         let sv = self.fresh("s");
         let lets = self.rebind_joined(&vars, &sv)?;
+        let brk_prefix = match &brk {
+            Some(b) => format!("let {} := false;\n  ", lean_ident(b)),
+            None => String::new(),
+        };
         if scan.has_exit {
             // a body that can leave the function: every pass answers `inl next-state` or `inr <the function's answer>`
             self.loop_depth += 1;
-            let body = self.block(&seal(f.body.stmts.clone()), &Kont::LoopCont(vars.clone()));
+            let kb = Kont::LoopCont(vars.clone());
+            if let Some(b) = &brk {
+                self.for_konts.push((kb.clone(), b.clone()));
+            }
+            let body = self.block(&seal(f.body.stmts.clone()), &kb);
+            let skip = self.finish(&kb, None);
+            if brk.is_some() {
+                self.for_konts.pop();
+            }
             self.loop_depth -= 1;
             let body = body?;
+            let body = match &brk {
+                Some(b) => format!("(if {} then {} else\n  {})", lean_ident(b), skip?, body),
+                None => body,
+            };
             self.scopes.pop();
             self.restore(&snapshot);
             let jv = self.fresh("j");
@@ -1130,7 +1249,8 @@ impl<'a> Cx<'a> {
             return Ok(wrap_pre(
                 &xs.pre,
                 format!(
-                    "(Rs.M.bind (Rs.forInBrk {} {} fun {} {} =>\n  {}{}{}) fun r_ =>\n  match r_ with\n  | Sum.inr x_ => Rs.M.ok {}\n  | Sum.inl {} =>\n  {}{})",
+                    "({}Rs.M.bind (Rs.forInBrk {} {} fun {} {} =>\n  {}{}{}) fun r_ =>\n  match r_ with\n  | Sum.inr x_ => Rs.M.ok {}\n  | Sum.inl {} =>\n  {}{})",
+                    brk_prefix,
                     xs.term,
                     Self::tuple_text(&init),
                     lx,
@@ -1145,7 +1265,20 @@ impl<'a> Cx<'a> {
                 ),
             ));
         }
-        let body = self.block(&seal(f.body.stmts.clone()), &Kont::Join(vars.clone()))?;
+        let kb = Kont::Join(vars.clone());
+        if let Some(b) = &brk {
+            self.for_konts.push((kb.clone(), b.clone()));
+        }
+        let body = self.block(&seal(f.body.stmts.clone()), &kb);
+        let skip = self.finish(&kb, None);
+        if brk.is_some() {
+            self.for_konts.pop();
+        }
+        let body = body?;
+        let body = match &brk {
+            Some(b) => format!("(if {} then {} else\n  {})", lean_ident(b), skip?, body),
+            None => body,
+        };
         self.scopes.pop();
         self.restore(&snapshot);
         let jv = self.fresh("j");
@@ -1154,7 +1287,8 @@ impl<'a> Cx<'a> {
         Ok(wrap_pre(
             &xs.pre,
             format!(
-                "(Rs.M.bind (Rs.forIn {} {} fun {} {} =>\n  {}{}{}) fun {} =>\n  {}{})",
+                "({}Rs.M.bind (Rs.forIn {} {} fun {} {} =>\n  {}{}{}) fun {} =>\n  {}{})",
+                brk_prefix,
                 xs.term,
                 Self::tuple_text(&init),
                 lx,
